@@ -50,6 +50,9 @@ std::vector<FilePlan> materialise(const hu::Plan& p, const std::string& root) {
     FilePlan& f = kv.second;
     const std::string d = root + "/" + dir_name(f.dir);
     mkdir(d.c_str(), 0755);
+    // params[3]: directories holding a per-directory tfel-check.config (it only defines an unrelated environment variable: the verdicts of the
+    // checks of that directory are those of the same checks anywhere else)
+    if (p.params.size() > 3 && ((p.params[3] >> f.dir) & 1)) { std::ofstream cf(d + "/tfel-check.config"); cf << "environment_variables : {\"VSIM_C52_UNRELATED_" << f.dir << "\" : \"1\"};\n"; }
     const std::string name = "t" + std::to_string(f.id);
     std::ofstream c(d + "/" + name + ".check");
     int ncmd = 0, ncmp = 0;
@@ -134,7 +137,7 @@ struct H52 : hu::Harness {
     hu::Rng r(seed); hu::Plan p;
     long nfiles = tier ? r.range(1, 12) : r.range(1, 6);
     long nj = r.chance(1, 5) ? 1 : r.range(2, tier ? 16 : 6);
-    p.params = {nj, r.chance(1, 4), r.chance(1, 4)};
+    p.params = {nj, r.chance(1, 4), r.chance(1, 4), 0};
     if (r.chance(1, 80)) {
       // scale: hundreds of check files, every one failing on a comparison (no process involved): the exit status is a byte, the verdict is not
       static const long counts[] = {255, 256, 257, 512};
@@ -145,13 +148,23 @@ struct H52 : hu::Harness {
       return p;
     }
     long ndirs = r.range(1, 3);
-    for (long f = 0; f < nfiles; ++f) {
+    if (r.chance(1, 3)) p.params[3] = r.range(1, (1 << ndirs) - 1);
+    // a share of the plans with per-directory configurations is centred on the settings given on the command line: the only failure of the
+    // whole tree is a failing command next to a passing comparison, in a directory that has its own configuration file
+    const bool focused = p.params[3] != 0 && r.chance(1, 2);
+    if (focused) {
+      long d = 0; while (!((p.params[3] >> d) & 1)) ++d;
+      p.ops.push_back({0, d, K_EXIT, r.range(1, 3), r.range(0, 14) << 1, 0});
+      p.ops.push_back({0, d, K_COMPARE, 1, 0, 0});
+    }
+    for (long f = focused ? 1 : 0; f < nfiles; ++f) {
       long d = r.range(0, ndirs - 1), n = r.range(1, tier ? 4 : 3);
       for (long k = 0; k < n; ++k) {
         long w = r.range(0, 11), kind, a = 0, b = 0, c = 0;
         if (w < 5) { kind = K_EXIT; a = 0; } else if (w < 7) { kind = K_EXIT; a = r.range(1, 3); } else if (w < 8) { kind = K_SIGNAL; a = 9; } else if (w < 9) { kind = K_EXECFAIL; }
         else if (w < 11) { kind = K_OUTPUT; a = r.chance(3, 4); } else { kind = K_COMPARE; a = r.chance(3, 4) ? 1 : (r.chance(1, 2) ? 0 : r.range(2, 3)); }
         if (kind != K_COMPARE) { b = (r.range(0, 14) << 1) | (r.chance(1, 8) ? 1 : 0); if (kind == K_EXIT && r.chance(1, 30)) c = r.range(9, 12); }
+        if (focused) { if (kind == K_COMPARE) a = 1; else { kind = K_EXIT; a = 0; b &= ~1L; } }
         p.ops.push_back({f, d, kind, a, b, c});
       }
     }
@@ -162,7 +175,7 @@ struct H52 : hu::Harness {
   }
   std::string describe(const hu::Plan& p) override {
     auto par = [&p](size_t i, long d) { return p.params.size() > i ? p.params[i] : d; };
-    std::string s = "-j " + std::to_string(par(0, 1)) + (par(1, 0) ? " --discard-commands-failure=true" : " --discard-commands-failure=false") + (par(2, 0) ? " --synchronize-terminal-output" : "") + " files:";
+    std::string s = "-j " + std::to_string(par(0, 1)) + (par(1, 0) ? " --discard-commands-failure=true" : " --discard-commands-failure=false") + (par(2, 0) ? " --synchronize-terminal-output" : "") + (par(3, 0) ? " tfel-check.config-in-directories-mask=" + std::to_string(par(3, 0)) : "") + " files:";
     long cur = -1; size_t n = 0;
     for (auto& o : p.ops) { if (o.size() < 6) continue; if (++n > 30) { s += " ..."; break; }
       if (o[0] != cur) { cur = o[0]; s += " " + dir_name(o[1]) + "/t" + std::to_string(o[0]) + ".check:"; }
@@ -226,6 +239,7 @@ struct H52 : hu::Harness {
     }
     out.probes[nj > 1 ? "runs_parallel" : "runs_j1"] = 1;
     out.probes["check_files"] = long(nfiles);
+    if (par(3, 0)) out.probes["runs_with_a_per_directory_configuration_file"] = 1;
     size_t big = 0; for (auto& b : blocks[1]) if (b.size() > 8192) ++big; if (big) out.probes["blocks_over_8KiB"] = long(big);
     return out;
   }
